@@ -109,6 +109,8 @@ def sample_gemini_params(rng, family, allow_precomputed=True, allow_instance=Tru
                 g["kernel"] = choice(rng, KERNELS + (["precomputed"] if allow_precomputed else []))
             if t == "wasserstein":
                 g["metric"] = choice(rng, METRICS + (["precomputed"] if allow_precomputed else []))
+            if rng.random() < 0.4:
+                g["epsilon"] = choice(rng, [1e-6, 1e-3, 0.05, 0.05, 0.2])     # a legal, non-default clipping bound
             out["gemini"] = g
     return out
 
@@ -308,11 +310,12 @@ def build_gemini_instance(spec):
     from gemclus.gemini import MMDGEMINI, WassersteinGEMINI, KLGEMINI, TVGEMINI, HellingerGEMINI, ChiSquareGEMINI
     t = spec["type"]
     ovo = bool(spec.get("ovo", False))
+    extra = {"epsilon": spec["epsilon"]} if "epsilon" in spec else {}
     if t == "mmd":
-        return MMDGEMINI(ovo=ovo, kernel=spec.get("kernel", "linear"), kernel_params=spec.get("kernel_params"))
+        return MMDGEMINI(ovo=ovo, kernel=spec.get("kernel", "linear"), kernel_params=spec.get("kernel_params"), **extra)
     if t == "wasserstein":
-        return WassersteinGEMINI(ovo=ovo, metric=spec.get("metric", "euclidean"))
-    return {"kl": KLGEMINI, "tv": TVGEMINI, "hellinger": HellingerGEMINI, "chi2": ChiSquareGEMINI}[t](ovo=ovo)
+        return WassersteinGEMINI(ovo=ovo, metric=spec.get("metric", "euclidean"), **extra)
+    return {"kl": KLGEMINI, "tv": TVGEMINI, "hellinger": HellingerGEMINI, "chi2": ChiSquareGEMINI}[t](ovo=ovo, **extra)
 
 
 def build_params(config, log=None, kernel_raise_at=None):
